@@ -93,6 +93,7 @@ class Hpm(object):
             except CompletionCodeError as e:
                 if e.cc == CC_GET_COMP_PROP_INVALID_PROPERTIES_SELECTOR:
                     continue
+                raise
         return properties
 
     def find_component_id_by_descriptor(self, descriptor):
